@@ -67,9 +67,19 @@ def trace_stats(path):
     return st, sample
 
 
+def trace_env(ledger=True, trees=False, locks=False):
+    """Switches of Trace_Wallet.tla (all must be set). A scan refused in a history tainted by the C06
+    stale-frontier finding is excused only while that finding is listed as open."""
+    open_ids = {f["id"] for f in lib.load_known_findings() if f.get("status") == "open"}
+    return {"EXPLAIN": "0", "CHECK_LEDGER": "1" if ledger else "0", "CHECK_TREES": "1" if trees else "0",
+            "CHECK_LOCKS": "1" if locks else "0",
+            "KF_STALE": "1" if "C06-stale-frontier-after-rewind" in open_ids else "0",
+            "KF_RETAIN": "1" if "C06-retained-boundary-lost" in open_ids else "0"}
+
+
 def validate(ctx, d, path, what):
     acc, n, detail, r = lib.tlc_validate(ctx, d, "Trace_Wallet", "Trace_Wallet.cfg", path, timeout=1500,
-                                         env_extra={"EXPLAIN": "0"})
+                                         env_extra=trace_env())
     if acc:
         ctx.traces += n
         return True
@@ -163,13 +173,13 @@ def selftest(ctx):
     bad = ctx.path("corrupt.ndjson")
     with open(bad, "w") as f:
         f.write("\n".join(lines[:idx] + [json.dumps(rec)] + lines[idx + 1:]) + "\n")
-    acc, n, _, _ = lib.tlc_validate(ctx, d, "Trace_Wallet", "Trace_Wallet.cfg", bad, env_extra={"EXPLAIN": "0"})
+    acc, n, _, _ = lib.tlc_validate(ctx, d, "Trace_Wallet", "Trace_Wallet.cfg", bad, env_extra=trace_env())
     if acc or n != idx + 1:
         raise lib.ToolError("selftest: corrupted balance at event %d not rejected there (got %s %s)" % (idx + 1, acc, n))
     drop = ctx.path("dropped.ndjson")
     with open(drop, "w") as f:
         f.write("\n".join(lines[:idx] + lines[idx + 1:]) + "\n")
-    acc, n, _, _ = lib.tlc_validate(ctx, d, "Trace_Wallet", "Trace_Wallet.cfg", drop, env_extra={"EXPLAIN": "0"})
+    acc, n, _, _ = lib.tlc_validate(ctx, d, "Trace_Wallet", "Trace_Wallet.cfg", drop, env_extra=trace_env())
     if acc:
         raise lib.ToolError("selftest: dropped scan event not noticed")
     lib.log("selftest ok: corrupted balance rejected at its event; dropped event rejected at %d" % n)
